@@ -3,4 +3,4 @@ def run(ctx):
     pdo_check.run(ctx, ["C12", "C12V", "C12R", "C12S"], quick_edges=8000, walks=(40, 2500), secondary=3000)
     # the PDO / SYNC services next to every other service and timer of the node (product model CoFull)
     import full_check
-    full_check.run(ctx, 500 if ctx.tier == "quick" else 20000)
+    full_check.run(ctx, 500 if ctx.tier == "quick" else 6000)
